@@ -229,8 +229,78 @@ def neutral_part(s):
     return parts[:2] + parts[3:] if len(parts) > 3 else parts
 
 
+# indent applied to a rendered fragment: escaping does not touch line breaks, so indenting is escaping-neutral whatever the width
+# string contains; the body has line breaks and an empty line so that every path of do_indent runs
+IND_BODY = "a {{ x }}\nb\n\n{{ y }} c\n d"
+IND_ARGS = ["w, first=true", "w, first=false", "2, true", "w, true, true", "w, blank=true", "4", "w", "0, true", "w, false, true"]
+IND_FORMS = {
+    "set-block": {"main": "{% set v %}BODY{% endset %}[{{ v|indent(ARGS) }}]"},
+    "macro": {"main": "{% macro m(q) %}BODY{% endmacro %}[{{ m(x)|indent(ARGS) }}]"},
+    "import": {"lib": "{% macro m(x, y) %}BODY{% endmacro %}", "main": "{% import 'libSUF' as lib %}[{{ lib.m(x, y)|indent(ARGS) }}]"},
+    "from-import": {"lib": "{% macro m(x, y) %}BODY{% endmacro %}", "main": "{% from 'libSUF' import m %}[{{ m(x, y)|indent(ARGS) }}]"},
+    "caller": {"main": "{% macro wr() %}[{{ caller()|indent(ARGS) }}]{% endmacro %}{% call wr() %}BODY{% endcall %}"},
+    "filter-block": {"main": "[{% filter indent(ARGS) %}BODY{% endfilter %}]"},
+    "filtered-set-block": {"main": "{% set v | indent(ARGS) %}BODY{% endset %}[{{ v }}]"},
+    "twice": {"main": "{% set v %}BODY{% endset %}[{{ v|indent(ARGS)|indent(ARGS) }}]"},
+    "self-block": {"main": "{% block b %}BODY{% endblock %}[{{ self.b()|indent(ARGS) }}]"},
+    "super": {"base": "{% block b %}BODY{% endblock %}", "main": "{% extends 'baseSUF' %}{% block b %}[{{ super()|indent(ARGS) }}]{% endblock %}"},
+}
+
+
+def run_indent(ctx, res, jinja2):
+    rng = ctx.rng("indent")
+    cases = []
+    for _ in range(ctx.pick(150, 1500)):
+        form = rng.choice(sorted(IND_FORMS))
+        # a region wrapper does not reach into a {% block %} body (C15 known finding) and hides macros from import: template-level modes there
+        mode = rng.choice(["static", "select"] if form in ("self-block", "super", "import", "from-import") else MODES)
+        cases.append((form, rng.choice(IND_ARGS), {"x": rng.choice(DATA), "y": rng.choice(DATA), "w": rng.choice(DATA + ["  ", "&nbsp;"])},
+                      mode, rng.randrange(2), rng.choice(T.APIS)))
+    renders = []
+    for form, args, data, mode, bit, api in cases:
+        outs = []
+        for on in (True, False):
+            suf = (".html" if on else ".txt") if mode == "select" else ""
+            kw = dict(data)
+            wrap = ("", "")
+            if mode == "static":
+                env_kw = dict(autoescape=on)
+            elif mode == "select":
+                env_kw = dict(autoescape=jinja2.select_autoescape(enabled_extensions=("html",), disabled_extensions=("txt",), default=not on))
+            elif mode == "block":
+                wrap = ("{% autoescape " + ("true" if on else "false") + " %}", "{% endautoescape %}")
+                env_kw = dict(autoescape=not on)
+            else:
+                wrap = ("{% autoescape flag %}", "{% endautoescape %}")
+                env_kw = dict(autoescape=bool(bit))
+                kw["flag"] = on
+            tpl = {k + suf: wrap[0] + v.replace("BODY", IND_BODY).replace("ARGS", args).replace("SUF", suf) + wrap[1] for k, v in IND_FORMS[form].items()}
+            try:
+                env = jinja2.Environment(loader=jinja2.DictLoader(tpl), **env_kw, **T.api_env_kw(api))
+                outs.append(T.render_api(env.get_template("main" + suf), api, kw))
+            except Exception as e:  # noqa
+                outs.append(f"raised:{type(e).__name__}:{e}")
+        renders.append(outs)
+    unesc = core.driver_batch([[Atom("autoesc"), Atom("unescape"), on if not on.startswith("raised:") else ""] for on, _ in renders])
+    nontrivial, by_form = 0, {}
+    for (form, args, data, mode, bit, api), (on, off), un in zip(cases, renders, unesc):
+        cfg = mode + ("" if api == "sync" else ":" + api)
+        by_form[form] = by_form.get(form, 0) + 1
+        replay = {"indent_form": form, "templates": IND_FORMS[form], "body": IND_BODY, "args": args, "data": data, "mode": mode, "api": api}
+        if on.startswith("raised:") or off.startswith("raised:"):
+            res.violate(f"C16:render-raised:indent:{form}", f"render raised: on={on[:120]!r} off={off[:120]!r}", replay, no_input=True)
+            continue
+        nontrivial += on != off
+        if un[1] != off:
+            res.violate(f"C16:once:indent:{form}:{cfg}", f"indent({args}) applied to a rendered fragment ({form}: {IND_FORMS[form]['main']!r}, body "
+                        f"{IND_BODY!r}) with {data}, configuration {cfg}: unescape(render with autoescape) = {un[1]!r} but render without = {off!r} "
+                        f"(autoescaped render {on!r})", replay)
+    return {"renders": 2 * len(cases), "nontrivial": nontrivial, "by_form": by_form}
+
+
 def run(ctx, res):
     jinja2 = core.import_jinja()
+    ind = run_indent(ctx, res, jinja2)
     rec = run_recursive(ctx, res, jinja2)
     ways = run_envways(ctx, res, jinja2)
     n = ctx.pick(1200, 12000)
@@ -271,7 +341,8 @@ def run(ctx, res):
         if m_un != m_off:
             raise core.HarnessError(f"model violates its own theorem on {replay}")
     res.coverage.update({
-        "evaluations": 2 * len(cases) + rec["renders"] + ways["renders"],
+        "evaluations": 2 * len(cases) + rec["renders"] + ways["renders"] + ind["renders"],
+        "indent_over_buffered_bodies": ind,
         "environment_ways": ways,
         "distinct_nontrivial": len(nontrivial) + rec["nontrivial"],
         "recursive_loops": rec,
@@ -294,6 +365,13 @@ def replay(ctx, case):
     c = case["case"]
     if isinstance(c, dict) and "scenario" in c:
         return [{"way": w, "autoescape": k, "name": n, "render": o} for w, i, k, n, o, f in W.execute(jinja2, c["scenario"], c["data"])]
+    if isinstance(c, dict) and "indent_form" in c:
+        out = {}
+        for on in (True, False):
+            tpl = {k: v.replace("BODY", c["body"]).replace("ARGS", c["args"]).replace("SUF", "") for k, v in c["templates"].items()}
+            out["on" if on else "off"] = jinja2.Environment(loader=jinja2.DictLoader(tpl), autoescape=on).get_template("main").render(**c["data"])
+        out["unescaped_on"] = core.driver_batch([[Atom("autoesc"), Atom("unescape"), out["on"]]])[0][1]
+        return out
     if isinstance(c, dict) and "loop_form" in c:
         out = {}
         for on in (True, False):
